@@ -11,7 +11,7 @@
 
    base64 is a parameter (section variables); the extracted runner instantiates
    it with Model/Base64.v.  No proofs in this file. *)
-From Oras Require Import Base.Prelude Generated.GC18 Model.Utf8.
+From Oras Require Import Base.Prelude Generated.GC18 Model.Utf8 Model.Json.
 
 Definition colon : N := 58.
 Definition slash : N := 47.
@@ -45,8 +45,10 @@ Definition trim_prefix (p s : str) : str :=
 Definition cut_before (c : N) (s : str) : str :=
   match index_of c s with Some i => firstn i s | None => s end.
 
+(* config.ToHostname: the TrimPrefix sequence and the Cut byte are regenerated from
+   config.go on every run (Generated/GC18.v, kind c18_trimcut) *)
 Definition to_hostname (addr : str) : str :=
-  cut_before slash (trim_prefix (b "https://") (trim_prefix (b "http://") addr)).
+  cut_before toHostname_cut (fold_left (fun a p => trim_prefix p a) toHostname_prefixes addr).
 
 (* ---------- credentials ---------- *)
 Record cred := { c_user : str; c_pass : str; c_refresh : str; c_access : str }.
@@ -74,7 +76,9 @@ Inductive result :=
 | RCred (c : cred)
 | RErrFormat          (* config.ErrInvalidConfigFormat *)
 | RErrBadCred         (* credentials.ErrBadCredentialFormat *)
-| RErrPutDisabled.    (* credentials.ErrPlaintextPutDisabled *)
+| RErrPutDisabled     (* credentials.ErrPlaintextPutDisabled *)
+| RErrIO              (* saveFile failed (an I/O error) *)
+| RNative.            (* routed to a native credential helper (outside this model) *)
 
 Inductive op :=
 | Get (a : str)
@@ -86,8 +90,28 @@ Inductive op :=
    tokens, which are written as JSON strings, are valid UTF-8) and a server
    address that is valid UTF-8 (it becomes a JSON object key).  Username and
    password travel base64-encoded and may hold any bytes. *)
-Definition put_accepts (a : str) (c : cred) : bool :=
-  negb (contains colon (c_user c)) && valid_utf8 a && valid_utf8 (c_refresh c) && valid_utf8 (c_access c).
+Definition cred_field (name : str) (c : cred) : str :=
+  if str_eqb name (b "Username") then c_user c
+  else if str_eqb name (b "Password") then c_pass c
+  else if str_eqb name (b "RefreshToken") then c_refresh c
+  else if str_eqb name (b "AccessToken") then c_access c
+  else [].
+
+(* validateCredentialFormat, interpreted from its regenerated tables (kind c18_credchecks) *)
+Definition validate_credential_format (c : cred) : bool :=
+  forallb (fun fr => negb (contains (snd fr) (cred_field (fst fr) c))) validateCredentialFormat_norune &&
+  forallb (fun f => valid_utf8 (cred_field f c)) validateCredentialFormat_utf8.
+
+(* one guard of FileStore.Put (kind c18_putguards); DisablePut is a switch of the store
+   ([fs_step]); a guard this model does not know refuses everything, which breaks
+   Proofs/CredFile.v put_accepts_spec *)
+Definition put_guard (a : str) (c : cred) (g : str) : bool :=
+  if str_eqb g (b "DisablePut") then true
+  else if str_eqb g (b "call:validateCredentialFormat") then validate_credential_format c
+  else if str_eqb g (b "utf8:serverAddress") then valid_utf8 a
+  else false.
+
+Definition put_accepts (a : str) (c : cred) : bool := forallb (put_guard a c) fileStorePut_guards.
 
 Record mem := { m_content : fdoc; m_cache : list (str * entry); m_cs : str }.
 
@@ -137,6 +161,17 @@ Section Model.
     | Fresh a i r => cred_of_fields a i r [] []
     | Old _ VErr => RErrFormat
     | Old _ (VFields a i r u p) => cred_of_fields a i r u p
+    end.
+
+  (* the same at the level of BYTES: PutCredential keeps json.Marshal(authCfg) in the
+     cache (and saveFile writes it, re-indented); GetCredential json.Unmarshals it *)
+  Definition entry_bytes (c : cred) : str :=
+    render_fresh (encode_auth (c_user c) (c_pass c)) (c_refresh c) (c_access c).
+
+  Definition cred_of_bytes (raw : str) : result :=
+    match parse_fresh raw with
+    | Some (a, i, r) => cred_of_fields a i r [] []
+    | None => RErrFormat
     end.
 
   (* the legacy-key scan of GetCredential, in the iteration order given by the list *)
@@ -280,6 +315,39 @@ Section Model.
     | o :: h' => fs_run disable_put (fst (fs_step disable_put st o)) h'
     end.
 
+  (* DynamicStore (store.go, DetectDefaultNativeStore off): getStore routes an address to
+     a server-specific credential helper (credHelpers, the map read at Load), else to the
+     configured credsStore, else to the config file itself with DisablePut =
+     not AllowPlaintextPut.  Native helpers are external programs: outside the model *)
+  (* Config.GetCredentialHelper: "" when there is none *)
+  Definition helper_of (helpers : list (str * str)) (a : str) : str :=
+    match lookup a helpers with Some h => h | None => [] end.
+
+  Definition ds_route (helpers : list (str * str)) (st : state) (a : str) : option str :=
+    match helper_of helpers a with
+    | c :: h => Some (c :: h)
+    | [] => match m_cs (st_mem st) with
+            | [] => None
+            | cs => Some cs
+            end
+    end.
+
+  Definition ds_step (allow_plaintext : bool) (helpers : list (str * str)) (st : state) (o : op) : state * result :=
+    match o with
+    | SetCs _ => (st, ROk)                       (* not an operation of the DynamicStore *)
+    | Get a | Put a _ | Delete a =>
+        match ds_route helpers st a with
+        | Some _ => (st, RNative)
+        | None => fs_step (negb allow_plaintext) st o
+        end
+    end.
+
+  Fixpoint ds_run (allow_plaintext : bool) (helpers : list (str * str)) (st : state) (h : list op) : state :=
+    match h with
+    | [] => st
+    | o :: h' => ds_run allow_plaintext helpers (fst (ds_step allow_plaintext helpers st o)) h'
+    end.
+
   (* does the operation write the file? *)
   Definition saves (st : state) (o : op) : bool :=
     match o with
@@ -288,6 +356,22 @@ Section Model.
     | Delete a => match lookup a (m_cache (st_mem st)) with Some _ => true | None => false end
     | SetCs _ => true
     end.
+
+  (* an operation whose save fails with an I/O error: Put/Delete/SetCredentialsStore
+     undo their cache update and report the error -- nothing changes ([io_fails]
+     says whether the save of this operation fails; operations that do not save
+     cannot fail) *)
+  Definition step_io (io_fails : bool) (st : state) (o : op) : state * result :=
+    if io_fails && saves st o then (st, RErrIO) else step st o.
+
+  (* history: before the fix "a failed save no longer leaves the in-memory cache
+     changed" the update stayed in memory (the file, of course, kept the old
+     document) *)
+  Definition step_io_prefix (io_fails : bool) (st : state) (o : op) : state * result :=
+    if io_fails && saves st o
+    then ({| st_mem := st_mem (fst (step st o)); st_file := st_file st |}, RErrIO)
+    else step st o.
+
 
   (* ---------- concurrency: threads are sequences of operations; every
      operation is one critical section of the RWMutex.  A schedule names the
